@@ -87,7 +87,7 @@ theorem filter_insertTable (ts : List Table) (a : Table) (name : List Char) (hs 
 
 /-- the three catalog deletes and the removal from the table list -/
 def dropTail (s1 : Pkg) (name : List Char) : Pkg × Res Unit :=
-  match deleteRows s1 Gen.nameValidation.toList (eqStr "Table" name) with
+  match deleteValidation s1 name with
   | (s2, .ok ()) =>
     match deleteRows s2 Gen.nameColumns.toList (eqStr "Table" name) with
     | (s3, .ok ()) =>
@@ -128,6 +128,7 @@ theorem dropTail_spec (slack : Nat → Nat) (s1 : Pkg) (tabs : List Table) (hC :
     fun X hX hne => MsiProofs.Frame.other_stream slack s1 hC.inv X t hX htm (fun e => hne (e.symm.trans htn))
   have hsep1 := hC.sep
   unfold dropTail at h
+  rw [MsiProofs.DeleteValidation.deleteValidation_some s1 name (by rw [hXv]; rfl)] at h
   -- stage V
   have g2 := MsiProofs.Synced.good_deleteRows s1 hsep1 Gen.nameValidation.toList (eqStr "Table" name)
   have n2 := noOrphans_deleteRows s1 hN Gen.nameValidation.toList (eqStr "Table" name)
